@@ -1,5 +1,6 @@
 """C10 -- cyclic symmetry expansion places subunits on the symmetry orbit"""
 from .common import *
+from . import C05 as _c05
 
 TITLE = "Cyclic symmetry expansion places subunits on the symmetry orbit"
 EXPLANATION = (
@@ -100,6 +101,25 @@ def o101(ctx):
                         f"{e.extra['names']} of a table in row order '{fs.chain()}': after sort_values the rows of the expanded "
                         "table are no longer in the order of the values", e.node, m)
     ctx.count(1, {"row-space mismatches at stores": sum(1 for e in it.events if e.kind == "space-mismatch")})
+    # the per-subunit values are laid over the rows by position (np.tile): the n copies of a parent must stand together, i.e. the
+    # expanded table (n copies of the list one after the other) must have been sorted by the column that identifies the parent
+    hist = [n_ for n_ in df.notes if n_[0] in ("repeat", "concat", "sort_values", "sort_index")]
+    ctx.count(1, {"history of the expanded table": [str(n_)[:60] for n_ in hist]})
+    rep = [i_ for i_, n_ in enumerate(hist) if n_[0] in ("repeat", "concat")]
+    if not rep:
+        raise Unsupported("expansion of the list into n copies not recognised", fn)
+    after = hist[rep[-1] + 1:]
+    srt = [n_ for n_ in after if n_[0] == "sort_values"]
+    if any(n_[0] == "sort_index" for n_ in after) and not srt:
+        ctx.finding(Q, "order of the expanded table", "the copies are grouped by sorting the row labels: labels identify a parent only while they are "
+                    "unique; a list put together from several tables (pd.concat of per-tomogram lists) repeats them, the copies of different "
+                    "parents interleave and a parent gets some subunit numbers twice and others never", fn, m)
+    elif not srt:
+        ctx.finding(Q, "order of the expanded table", "the expanded table is never brought into parent-major order (a sort whose result is not "
+                    "assigned does nothing): the n copies of the list stand one after the other while geom2, the in-plane angles and the offsets "
+                    "are laid over the rows as 1..n repeating, so a parent gets some subunits twice and others never", fn, m)
+    elif not any(str(tm.cval(n_[1]) if hasattr(n_[1], "op") else n_[1]).strip("'") in ("subtomo_id", "geom5") for n_ in srt):
+        raise Unsupported(f"the expanded table is sorted by {srt[0][1]}: whether that identifies the parent is not decided", fn)
 
 
 def o102(ctx):
@@ -167,6 +187,7 @@ def parsed_fold(ctx, spelling):
 
 def _obligations():
     return [
+        Obligation("O10.20", "accessors of the particle list: get_coordinates = (x,y,z) + shifts, get_angles / get_rotations = the stored zxz angles, fill stores values as given (shared with C05)", _c05.accessors, floor=20),
         Obligation("O10.1", "index vectors of the subunit lattice have exactly n elements; stores respect the table's row order", o101, floor=3),
         Obligation("O10.2", "orientation R*Rz(k*360/n) and complete position centre + R*Rz(k*360/n)*s, integer x,y,z", o102, floor=7),
         Obligation("O10.4", "geom5 parent, geom2 subunit index, unique subtomogram numbers, inherited fields, n rows per parent", o104, floor=12),
@@ -175,4 +196,4 @@ def _obligations():
 
 
 def obligations():
-    return _obligations() + [labels_obligation("C10"), selectors_obligation("C10"), effects_obligation("C10"), plumbing_obligation("C10"), overrides_obligation("C10"), options_obligation("C10")]
+    return _obligations() + [constructors_obligation(['cryomotl.Motl', 'cryomotl.EmMotl']), labels_obligation("C10"), selectors_obligation("C10"), effects_obligation("C10"), plumbing_obligation("C10"), overrides_obligation("C10"), options_obligation("C10")]
